@@ -10,7 +10,7 @@ RULE = ('(a) option dictionaries drawn from a pool of Python values per document
         '(b) parse/split/format with random VALID option sets on junk (g2/g3), nearly valid and grammar inputs; (c) every read-only accessor on every node of every resulting tree; '
         'non-trivial = distinct (text, options) or (text, node, accessor) evaluated')
 ASSUMPTIONS = ['right_margin is undocumented (raises NotImplementedError by design) and is outside the option domain', 'MemoryError etc. from CPython internals are out of scope']
-PARTIAL = ['lexer+splitter total, grouping total (only RecursionError), option validation total, accessor totality, format never leaks RecursionError/StopIteration are theorems; absence of IndexError/… in the statement filters is explored (two known findings KF-C07-1/2 come from there)']
+PARTIAL = ['lexer+splitter total, grouping total (only RecursionError), option validation total, accessor totality, every statement filter total on its decidable domain FilterSafe.* (strip_comments and use_space_around_operators on every tree) are theorems; that grouped trees of arbitrary junk lie inside FilterSafe.reindent/aligned/stripws is explored (DOMAIN(filtersafe), escaping exceptions classified by the Lean predicate); two former findings were repaired (KF-C07-F4/F5)']
 
 POOL = [None, True, False, 0, 1, 2, -1, 3, 10, 1.0, 0.0, 2.5, float('inf'), float('-inf'), float('nan'), '', 'upper', 'lower', 'capitalize', 'sql', 'python', 'php',
         '3', 'x', ' 4 ', [], 10 ** 30, '1_0', b'2']
